@@ -103,6 +103,10 @@ pub fn variant_name<E: std::fmt::Debug>(e: &E) -> String {
     head
 }
 
+thread_local! {
+    static SEEN_SITES: RefCell<std::collections::HashSet<String>> = RefCell::new(Default::default());
+}
+
 // ---------------------------------------------------------------- case plumbing
 
 /// Identity of the font a case runs on.
@@ -133,6 +137,22 @@ impl GroupSpec {
     pub fn new(group: impl Into<String>, level: u8, cfg_seed: u64) -> Self {
         GroupSpec { group: group.into(), level, cfg_seed, partner: None, index: 0 }
     }
+    /// `name|mutation|group|cfg_seed|level|index|partner` (the case label: enough to re-run the case on the recorded bytes)
+    pub fn label(&self, name: &str, mutation: &str) -> String {
+        format!("{}|{}|{}|{}|{}|{}|{}", name, mutation.replace('|', "/"), self.group, self.cfg_seed, self.level, self.index, self.partner.as_deref().unwrap_or(""))
+    }
+    /// Inverse of `label`: (name, mutation, spec)
+    pub fn from_label(l: &str) -> Option<(String, String, GroupSpec)> {
+        let mut it = l.rsplitn(6, '|');
+        let partner = it.next()?;
+        let index = it.next()?.parse().ok()?;
+        let level = it.next()?.parse().ok()?;
+        let cfg_seed = it.next()?.parse().ok()?;
+        let group = it.next()?.to_string();
+        let rest = it.next()?;
+        let (name, mutation) = rest.split_once('|').unwrap_or((rest, ""));
+        Some((name.to_string(), mutation.to_string(), GroupSpec { group, level, cfg_seed, partner: if partner.is_empty() { None } else { Some(partner.to_string()) }, index }))
+    }
     pub fn to_json(&self) -> Value {
         json!({"group": self.group, "level": self.level, "cfg_seed": self.cfg_seed.to_string(), "partner": self.partner, "index": self.index})
     }
@@ -158,7 +178,7 @@ pub struct Outcome {
 pub fn exec_case(ctx: &mut Ctx, fc: &FontCase, spec: &GroupSpec, partner: Option<&[u8]>) -> Outcome {
     ctx.eval();
     let st = RefCell::new(Stats::default());
-    let label = || format!("{}|{}|{}|{}", fc.name, fc.mutation, spec.group, spec.cfg_seed);
+    let label = || spec.label(fc.name, fc.mutation);
     let r = ctx.run_case(&label, Some(fc.bytes), &|| {
         let mut s = st.borrow_mut();
         run_group(fc.bytes, spec, partner, &mut s);
@@ -171,7 +191,17 @@ pub fn exec_case(ctx: &mut Ctx, fc: &FontCase, spec: &GroupSpec, partner: Option
         if p.class == PanicClass::Harness && st.budget_exceeded.is_some() {
             // handled below
         } else {
-            ctx.count(&format!("panics_at:{}:{}:{}", p.file, p.line, p.class.as_str()), 1);
+            let site = format!("{}:{}:{}", p.file, p.line, p.class.as_str());
+            ctx.count(&format!("panics_at:{}", site), 1);
+            // one example input per panic site and shard (strict-only sites are C20's, listed for it)
+            SEEN_SITES.with(|s| {
+                if s.borrow_mut().insert(site.clone()) {
+                    ctx.label(
+                        "panic_site_examples",
+                        &format!("{} [{}] <= {} ({} bytes) | {} | {}", site, p.msg.chars().take(60).collect::<String>(), fc.name, fc.bytes.len(), fc.mutation.chars().take(120).collect::<String>(), spec.group),
+                    );
+                }
+            });
             ctx.judge_panic(
                 p,
                 &format!("skrifa {} on {}", spec.group, fc.name),
@@ -190,6 +220,11 @@ pub fn exec_case(ctx: &mut Ctx, fc: &FontCase, spec: &GroupSpec, partner: Option
     }
     absorb(ctx, &st, spec);
     if st.opened && st.ok + st.err > 0 {
+        ctx.sample_by_kind(
+            &format!("{}:{}", fc.category, group_family(&spec.group)),
+            json!({"font": fc.name, "mutation": fc.mutation.chars().take(160).collect::<String>(), "group": spec.group, "font_len": fc.bytes.len(),
+                   "library_calls": st.calls, "ok_or_some": st.ok, "err_or_none": st.err, "panicked": out.panicked}),
+        );
         let mut d = Digest::new();
         d.str(fc.name);
         d.str(fc.mutation);
@@ -593,6 +628,7 @@ pub fn run_group(bytes: &[u8], spec: &GroupSpec, partner: Option<&[u8]>, st: &mu
             }
             "color" => group_color(font, spec, &mut rng, st),
             "helpers" => group_helpers(font, spec, &mut rng, st),
+            "probe" => group_probe(font, spec, st),
             "misuse" | "reconf" | "styles" => {
                 let mut it = g.split(':').skip(1);
                 let e: usize = it.next().and_then(|s| s.parse().ok()).unwrap_or(0);
@@ -1129,6 +1165,18 @@ fn group_color(font: &FontRef, spec: &GroupSpec, rng: &mut Rng, st: &mut Stats) 
                 }
             }
         }
+    }
+}
+
+/// Minimal case: look one glyph (spec.index) up and draw it once unhinted.
+fn group_probe(font: &FontRef, spec: &GroupSpec, st: &mut Stats) {
+    let oc = font.outline_glyphs();
+    let og = oc.get(GlyphId::new(spec.index));
+    st.opt(&og);
+    if let Some(og) = og {
+        let mut pen = CountPen::default();
+        let r = og.draw(Size::new(16.0), &mut pen);
+        draw_err_label(st, &r);
     }
 }
 
